@@ -188,7 +188,7 @@ def verify_contract(reg: Registry, c: Contract, cfg: Config) -> FunctionReport:
     try:
         cfg2 = cfg
         if c.max_paths:
-            cfg2 = Config(cfg.feas_ms, cfg.obl_ms, c.max_paths, cfg.unroll)
+            cfg2 = Config(cfg.feas_ms, cfg.obl_ms, c.max_paths * (20 if os.environ.get("PYVC_TIER") == "thorough" else 1), cfg.unroll)
         paths = explore(run, cfg2)
     except OutOfSubset as e:
         rep.status = "undecided"
